@@ -87,12 +87,14 @@ func FailoverConfig(options ...Option) (config Config) {
 		clientContext := core.GetClientContext(ctx)
 		urls := clientContext.Client().URLs
 		n := int64(len(urls))
-		url := urls[getIndex(&index, n)]
-		// the index is shared by all calls: skip the server that has just failed
-		for i := int64(1); i < n && url == clientContext.URL; i++ {
-			url = urls[getIndex(&index, n)]
+		i := getIndex(&index, n)
+		// the index is shared by all calls: if it points at the server that has
+		// just failed, take that server's successor (asking the shared index
+		// again could yield the same server when other calls advance it meanwhile)
+		if n > 1 && urls[i] == clientContext.URL {
+			i = (i + 1) % n
 		}
-		clientContext.URL = url
+		clientContext.URL = urls[i]
 	}
 	config.OnRetry = func(ctx context.Context) time.Duration {
 		clientContext := core.GetClientContext(ctx)
